@@ -84,17 +84,13 @@ def matchesLoop : List Tri → Bool → Bool
 
 def evalRule (r : Rule) : ERule := ⟨matchesLoop r.inputs true, r.outputs⟩
 
-/-- `decision_table.rs:351-364`: only `ExpressionList` results contribute, flattened. -/
-def flattenCells : List Cell → List DTValue
-  | [] => []
-  | .exprList vs :: cs => vs ++ flattenCells cs
-  | .none :: cs => flattenCells cs
-  | .other :: cs => flattenCells cs
-
 /-- `EvaluatedDecisionTable`. -/
 structure ETable where
   componentNames : List (List Char)
-  outputValues : List DTValue
+  /-- one list per output clause, empty when the clause defines no output values or they did not
+  evaluate to an expression list (`decision_table.rs:351-361`, since f5ce13a; before, the lists of
+  all clauses were appended into one) -/
+  outputValues : List (List DTValue)
   /-- one per output clause; `some v` when the default output entry evaluated to exactly one value -/
   defaultOutputValues : List (Option DTValue)
   rules : List ERule
@@ -102,7 +98,7 @@ structure ETable where
 
 /-- `evaluate_parsed_decision_table`. -/
 def evalTable (t : Table) : ETable :=
-  ⟨t.componentNames, flattenCells t.outputValues, t.defaultOutputs.map Cell.single, t.rules.map evalRule⟩
+  ⟨t.componentNames, t.outputValues.map Cell.values, t.defaultOutputs.map Cell.single, t.rules.map evalRule⟩
 
 /-- `get_matching_rules`: `iter().filter(|r| r.matches).collect()`. -/
 def matching : List ERule → List ERule
@@ -115,17 +111,19 @@ def position (ov : List DTValue) (v : DTValue) : Option Nat :=
   | [] => none
   | o :: os => if o = v then some 0 else (position os v).map (· + 1)
 
-/-- The comparator closure of `get_matching_rules_prioritized` (`decision_table.rs:84-103`);
-the `zip` stops at the shorter list. -/
-def compareOutputs (ov : List DTValue) : List DTValue → List DTValue → Ordering
-  | v1 :: xs, v2 :: ys =>
+/-- The comparator closure of `get_matching_rules_prioritized` (`decision_table.rs:84-104`): the
+output entries of the two rules are walked together with the output-values lists of their
+clauses (the `zip`s stop at the shortest list); an entry's priority is its position among the
+output values of its own clause. -/
+def compareOutputs : List (List DTValue) → List DTValue → List DTValue → Ordering
+  | ov :: ovs, v1 :: xs, v2 :: ys =>
     match position ov v1, position ov v2 with
     | some i, some j =>
-      if i < j then .lt else if i > j then .gt else compareOutputs ov xs ys
+      if i < j then .lt else if i > j then .gt else compareOutputs ovs xs ys
     | some _, none => .lt
     | none, some _ => .gt
-    | none, none => compareOutputs ov xs ys
-  | _, _ => .eq
+    | none, none => compareOutputs ovs xs ys
+  | _, _, _ => .eq
 
 /-- Insertion of `x` (which precedes all of `ys` in the original order) before the first
 element that is not smaller: keeps equal elements in their original order. -/
@@ -373,9 +371,9 @@ def ruleMatches (r : Rule) : Bool := r.inputs.all (· = Tri.t)
 /-- The matching rules, in rule order. -/
 def matchingRules (t : Table) : List Rule := t.rules.filter ruleMatches
 
-/-- The output values in priority order: the concatenation of the clauses' lists. -/
-def outputValues (t : Table) : List DTValue :=
-  t.outputValues.flatMap Cell.values
+/-- The output values of each output clause, in priority order (none: the empty list). -/
+def outputValues (t : Table) : List (List DTValue) :=
+  t.outputValues.map Cell.values
 
 /-- Context from name/value pairs: later pairs win, keys sorted (what a map keyed by the
 component names holds). -/
@@ -407,8 +405,8 @@ def defaultOf (names : List (List Char)) : List (Option DTValue) → DTValue
 
 def default (t : Table) : DTValue := defaultOf t.componentNames (defaults t)
 
-/-- Priority rank of an output value: its position in the output values; values that are
-not listed rank after all listed ones. -/
+/-- Priority rank of an output value of a clause: its position in the output values of that
+clause; values that are not listed rank after all listed ones. -/
 def rank (ov : List DTValue) (v : DTValue) : Nat := ov.idxOf v
 
 /-- Lexicographic `≤` on rank lists (first output clause most significant). -/
@@ -417,7 +415,14 @@ def lexLe : List Nat → List Nat → Bool
   | _ :: _, [] => false
   | a :: as, b :: bs => a < b || (a = b && lexLe as bs)
 
-def key (t : Table) (r : Rule) : List Nat := r.outputs.map (rank (outputValues t))
+/-- The ranks of a rule's output entries, each among the output values of its own clause
+(DMN 1.3, 8.2.11: the priority of an output is given by the ordered list of output values of
+its output clause; several components are compared in clause order). -/
+def ranks : List (List DTValue) → List DTValue → List Nat
+  | ov :: ovs, v :: vs => rank ov v :: ranks ovs vs
+  | _, _ => []
+
+def key (t : Table) (r : Rule) : List Nat := ranks (outputValues t) r.outputs
 
 def prioLe (t : Table) (a b : Rule) : Bool := lexLe (key t a) (key t b)
 
